@@ -64,6 +64,65 @@ def scenario():
   return fn
 
 
+def scenario_logs():
+  """Two threads of one phase log at the same time; afterwards the rendered log list is the in-memory one, in order."""
+  h, measurements, test_state = mods()
+
+  def fn(sched):
+    res = {}
+
+    def body(state):
+      test = state.test_api
+
+      def helper():
+        test.logger.info('h1')
+        test.logger.info('h2')
+
+      ht = threading.Thread(target=helper, name='helper')
+      ht.start()
+      test.logger.info('b1')
+      test.logger.info('b2')
+      ht.join()
+      rec = state.test_record
+      mine = ('h1', 'h2', 'b1', 'b2')
+      res['mem'] = [r.message for r in rec.log_records if r.message in mine]
+      res['view'] = [r['message'] for r in rec.as_base_types()['log_records'] if r['message'] in mine]
+
+    body.__name__ = 'lg'
+    ph = h.PhaseOptions(name='lg', requires_state=True)(body)
+    test = h.Test(ph)
+    res['ok'] = test.execute()
+    return res
+
+  return fn
+
+
+def execute_logs(choices):
+  htf.init()
+  from openhtf.core import test_record  # pylint: disable=g-import-not-at-top
+  from openhtf.util import logs  # pylint: disable=g-import-not-at-top
+  targets = [test_record.TestRecord.add_log_record, logs.RecordHandler.emit]
+  # (the handler lock is created in logging/__init__.py: its operations are scheduling points too)
+  sched, value = explore.run_under_scheduler(scenario_logs(), choices, focus_targets=targets,
+                                             focus_files=('openhtf/util/logs.py', 'logging/__init__.py'), max_steps=60000)
+  result = {'value': value if isinstance(value, dict) else repr(value), 'failure': repr(sched.failure) if sched.failure else None,
+            'outcome_key': repr(value)[:300]}
+  return explore.Exec(list(choices), sched.points, result, sched.failure, sched.steps, len(sched.trace), sched.state_hashes)
+
+
+def check_logs(ex):
+  rep = {'part': 'schedules', 'kind': 'logs', 'choices': ex.choices}
+  v = ex.result['value']
+  if ex.failure is not None or not isinstance(v, dict):
+    return [('schedules:logs:failure', 'the two logging threads did not finish: %s / %s' % (ex.failure, v), rep)]
+  out = []
+  if sorted(v.get('mem') or []) != ['b1', 'b2', 'h1', 'h2']:
+    out.append(('schedules:logs:lost', 'in-memory log records %r' % (v.get('mem'),), rep))
+  if v.get('view') != v.get('mem'):
+    out.append(('schedules:logs:order', 'rendered log records %r, in-memory %r' % (v.get('view'), v.get('mem')), rep))
+  return out
+
+
 def execute(choices):
   h, measurements, test_state = mods()
   targets = [test_state.PhaseState.as_base_types, test_state.PhaseState._notify, measurements.Measurement.as_base_types]  # pylint: disable=protected-access
@@ -94,12 +153,21 @@ def run_into(rep, tier):
   rep.add_part('schedules live-view reader vs phase thread', states=max(1, r['states']), transitions=r['steps'],
                traces_validated_against_impl=r['executions'], evaluations=r['executions'], distinct_nontrivial=len(r['outcomes']),
                deviation_bound=bound, exhaustive=not r['capped'], samples=r['samples'] or [{'choices': []}])
+  r = explore.explore('C10:L', execute_logs, check_logs, bound, cap=60000 if tier == 'quick' else 400000)
+  rep.merge_violations(r['violations'])
+  rep.add_part('schedules two logging threads', states=max(1, r['states']), transitions=r['steps'],
+               traces_validated_against_impl=r['executions'], evaluations=r['executions'], distinct_nontrivial=len(r['outcomes']),
+               deviation_bound=bound, exhaustive=not r['capped'], samples=r['samples'] or [{'choices': []}])
 
 
 def replay(r):
-  ex = execute(r['choices'])
+  if r.get('kind') == 'logs':
+    ex = execute_logs(r['choices'])
+    bad = check_logs(ex)
+  else:
+    ex = execute(r['choices'])
+    bad = check(ex)
   print(ex.result['value'])
-  bad = check(ex)
   for b in bad:
     print('VIOLATED', b[0], b[1])
   return 1 if bad else 0
